@@ -83,6 +83,17 @@ def driverStep (f : Font) (line : SExp) : Font × SExp :=
       (f', observe (.atom "ok") f')
     | _, _, _ => (f, .atom "bad-op")
   | .list [.atom "save"] => (f, observe (.atom "ok") f)
+  | .list [.atom "renameChain", l, o, ns] =>
+    -- `g = layer[o]; g.holdNotifications(); g.name = n1; g.name = n2; …; g.releaseHeldNotifications()` with
+    -- names n1 … that nothing has or lists: what the layer and the font are told at the glyph's release is the
+    -- chain of renamings o -> n1 -> n2 … (glue: the renamings one after the other, first error reported)
+    match asStr? l, asStr? o, strList? ns with
+    | some L, some o0, some names =>
+      let r := names.foldl (fun (acc : Font × String × Res) n =>
+        let (f1, res) := step acc.1 (.rename L acc.2.1 n)
+        (f1, n, match acc.2.2 with | .ok => res | e => e)) (f, o0, Res.ok)
+      (r.1, observe (encRes r.2.2) r.1)
+    | _, _, _ => (f, .atom "bad-op")
   | _ =>
     match parseOp line with
     | none => (f, .atom "bad-op")
